@@ -5,7 +5,7 @@ import time
 
 import c06
 from common import Rule, finish
-from mirutil import Body, inline_calls, op_local
+from mirutil import Body, LocalGraph, inline_calls, norm_def, op_local
 from mono import Mono
 
 PERSIST = r"^tempfile::file::NamedTempFile::<F>::persist(_noclobber)?$"
@@ -229,69 +229,9 @@ def rule_no_deferred_results(facts, rid):
     r.nontrivial = {("bodies", nb)} if nb else set()
     return r
 
-def run(facts, tier):
-    t0 = time.time()
-    rules = []
-    anchors = in_place_bodies(facts)
-    if not anchors:
-        r = Rule("W18.0", "anchor", floor=1)
-        r.missing_anchor("a function of the command-line driver that calls tempfile::NamedTempFile::persist")
-        return finish("C18", "other", [r.finish()], t0, tier, "anchor missing", [])
-    w1 = Rule("W18.1", "the rename over the original (NamedTempFile::persist) is dominated by the Continue edge of the `?` applied to the result of the filter run whose output went to that temporary file", floor=1)
-    w2 = Rule("W18.2", "inside the closure handed to that run every value is written to NamedTempFile::as_file_mut() of the captured temporary file (not to the input path, not to stdout)", floor=1)
-    w3 = Rule("W18.3", "the temporary file is created in the parent directory of the input path and renamed to that same path (rename within one file system)", floor=3)
-    w6 = Rule("W18.6", "the permission bits are read from the input path before the rename and re-applied to it after the rename, on every successful path", floor=2)
-    w9 = Rule("W18.9", "once the run for a file has succeeded, every path on which the function returns -- other than the propagation of an error with `?` -- passes through the rename of "
-              "the temporary file over the input: the replacement is not conditional on there having been output", floor=1)
-    for mb in anchors:
-        in_place_rules(facts, Body(mb), mb["def"], w1, w2, w3, w6, w9)
-    rules += [w1.finish(), w2.finish(), w3.finish(), w6.finish(), w9.finish()]
-    ANCHORS = {mb["def"] for mb in anchors} | {mb.get("root") for mb in anchors if mb.get("root")}
-
-    # ---- W18.5 / W18.7 who-may-call inside the CLI crate
-    w5 = Rule("W18.5", "the temporary file is never kept, leaked or detached from its RAII guard, and is not wrapped in a buffered writer whose Drop would swallow a failing final flush", floor=20)
-    LEAK = re.compile(r"^tempfile::.*::(keep|into_parts|into_temp_path|into_file|disable_cleanup|into_inner)$|^core::mem::forget$|^core::mem::manually_drop::ManuallyDrop::<T>::new$|^alloc::boxed::Box::<T(, A)?>::leak$")
-    BUF = re.compile(r"^std::io::buffered::(bufwriter::BufWriter|linewriter::LineWriter)::<W>::(new|with_capacity)$")
-    for crate, body in facts.all_mir():
-        if crate != "jaq" or body["def"].startswith("jaq::funs::repl") or (body.get("root") or "").startswith("jaq::funs::repl"):
-            continue
-        bb = Body(body)
-        in_place_fn = body["def"] in ANCHORS or body.get("root") in ANCHORS
-        for i, t in bb.calls():
-            c = Body.callee(t) or ""
-            w5.examined((body["def"], c, t["sp"]), bool(LEAK.search(c) or BUF.search(c)))
-            if LEAK.search(c):
-                w5.violate(f"leak/{body['def']}/{c}", f"`{body['def']}` calls `{c}`: the temporary file can outlive a failed run", where=t["sp"])
-            if BUF.search(c) and in_place_fn:
-                w5.violate(f"buffered/{body['def']}/{c}", f"`{body['def']}` wraps an output in `{c}`; a write error in the final implicit flush (Drop) would be lost before the rename", where=t["sp"])
-    rules.append(w5.finish())
-
-    # ---- W18.7 the process is only ended where no temporary file is alive
-    w7 = Rule("W18.7", "the driver ends the process (`process::exit`, `abort`) only in `main` and in the conversion of the final error to an exit status, i.e. after the run "
-              "has returned and the RAII guard of an unfinished temporary file has deleted it: an exit from inside the run would leave `jaqXXXXXX` next to the input", floor=1)
-    n_exit = 0
-    for crate, body in facts.all_mir():
-        if crate not in ("jaq", "jaq_all") or body.get("test") or not not_repl(body):
-            continue
-        bb_ = Body(body)
-        for i, t in bb_.calls():
-            c = Body.callee(t) or ""
-            if re.search(r"^std::process::(exit|abort)$", c) or re.search(r"^std::process::(exit|abort)$", t.get("fn") or ""):
-                n_exit += 1
-                fn_ = body["def"].split("::{closure")[0]
-                ok = re.search(r"as std::process::Termination>::report$", fn_) is not None or fn_ == "jaq::main"
-                w7.examined((fn_, c), True, {"caller": fn_, "ends_process_with": c, "after_the_run": ok})
-                if not ok:
-                    w7.violate(f"exit/{fn_}", f"`{body['def']}` ends the process with `{c}`: destructors do not run, so an --in-place temporary file that is alive at that point stays on disk", where=t["sp"])
-    if not n_exit:
-        w7.missing_anchor("a call of std::process::exit in the driver (the `halt` exit status)")
-    rules.append(w7.finish())
-
-    # ---- W18.8 outcomes are examined one at a time
-    rules.append(rule_no_deferred_results(facts, "W18.8").finish())
-
-    # ---- W18.4 sole writer of file-system state (MONO)
-    w4 = Rule("W18.4", "outside the interactive repl, the only first-party code that can change the file system is module `jaq` (the command-line driver), and it does so only through tempfile creation, NamedTempFile::persist, set_permissions and the RAII deletion of the temporary file", floor=50)
+def rule_sole_writer(facts, rid):
+    """sole writer of file-system state, over the whole-program call graph (shared: W18.4, R6.7)"""
+    w4 = Rule(rid, "outside the interactive repl, the only first-party code that can change the file system is module `jaq` (the command-line driver), and it does so only through tempfile creation, NamedTempFile::persist, set_permissions and the RAII deletion of the temporary file", floor=50)
     g = Mono(facts.mono())
     N = g.nodes
     fams = c06.load_families()
@@ -345,7 +285,93 @@ def run(facts, tier):
                 w4.violate(f"writer/{d}/{N[bnode]['def']}", f"`{d}` can change the file system through `{N[bnode]['def']}` -> ... -> `{what}`; only the command-line driver (module jaq) may", where=sp)
             elif not ALLOWED_ENTRY.search(N[bnode]["def"]):
                 w4.violate(f"entry/{N[bnode]['def']}", f"the command-line driver changes the file system through `{N[bnode]['def']}` (-> `{what}`), which is not one of tempfile creation / persist / set_permissions / RAII drop", where=sp)
-    rules.append(w4.finish())
+    return w4
+
+
+def rule_exit_only_after_run(facts, rid):
+    """the process is only ended where no temporary file is alive (shared: W18.7, R6.6)"""
+    w7 = Rule(rid, "the driver ends the process (`process::exit`, `abort`) only in `main` and in the conversion of the final error to an exit status, i.e. after the run "
+              "has returned and the RAII guard of an unfinished temporary file has deleted it: an exit from inside the run would leave `jaqXXXXXX` next to the input", floor=1)
+    n_exit = 0
+    FP_LIBS = {"jaq_core", "jaq_std", "jaq_json", "jaq_fmts"}
+    lg_all = LocalGraph(facts, FP_LIBS)
+    exits_cache = {}
+    for crate, body in facts.all_mir():
+        if crate not in ("jaq", "jaq_all") or body.get("test") or not not_repl(body):
+            continue
+        bb_ = Body(body)
+        for i, t in bb_.calls():
+            c = Body.callee(t) or ""
+            if re.search(r"^std::process::(exit|abort)$", c) or re.search(r"^std::process::(exit|abort)$", t.get("fn") or ""):
+                n_exit += 1
+                fn_ = body["def"].split("::{closure")[0]
+                ok = re.search(r"as std::process::Termination>::report$", fn_) is not None or fn_ == "jaq::main"
+                w7.examined((fn_, c), True, {"caller": fn_, "ends_process_with": c, "after_the_run": ok})
+                if not ok:
+                    w7.violate(f"exit/{fn_}", f"`{body['def']}` ends the process with `{c}`: destructors do not run, so an --in-place temporary file that is alive at that point stays on disk", where=t["sp"])
+            elif t.get("crate") in FP_LIBS or t.get("res_crate") in FP_LIBS:
+                # a first-party library function that ends the process itself (e.g. a convenience wrapper that turns `halt` into an exit)
+                tgt = norm_def(t.get("res") or t.get("fn") or "")
+                if tgt not in exits_cache:
+                    exits_cache[tgt] = lg_all.reaches(tgt, lambda d: re.search(r"^std::process::(exit|abort)$", d) is not None, 4)
+                if exits_cache[tgt]:
+                    fn_ = body["def"].split("::{closure")[0]
+                    ok = re.search(r"as std::process::Termination>::report$", fn_) is not None or fn_ == "jaq::main"
+                    w7.examined((fn_, tgt), True, {"caller": fn_, "ends_process_through": tgt, "after_the_run": ok})
+                    if not ok:
+                        w7.violate(f"exit-via/{fn_}/{tgt}", f"`{body['def']}` calls `{tgt}`, which ends the process (`std::process::exit`) when the filter halts: destructors do not run, so an --in-place temporary file that is alive at that point stays on disk", where=t["sp"])
+    if not n_exit:
+        w7.missing_anchor("a call of std::process::exit in the driver (the `halt` exit status)")
+    return w7
+
+
+
+def run(facts, tier):
+    t0 = time.time()
+    rules = []
+    anchors = in_place_bodies(facts)
+    if not anchors:
+        # fail closed, but still evaluate the who-may-call rules below: they say what replaced the missing construct
+        r = Rule("W18.0", "anchor", floor=1)
+        r.missing_anchor("a function of the command-line driver that calls tempfile::NamedTempFile::persist")
+        rules.append(r.finish())
+    w1 = Rule("W18.1", "the rename over the original (NamedTempFile::persist) is dominated by the Continue edge of the `?` applied to the result of the filter run whose output went to that temporary file", floor=1)
+    w2 = Rule("W18.2", "inside the closure handed to that run every value is written to NamedTempFile::as_file_mut() of the captured temporary file (not to the input path, not to stdout)", floor=1)
+    w3 = Rule("W18.3", "the temporary file is created in the parent directory of the input path and renamed to that same path (rename within one file system)", floor=3)
+    w6 = Rule("W18.6", "the permission bits are read from the input path before the rename and re-applied to it after the rename, on every successful path", floor=2)
+    w9 = Rule("W18.9", "once the run for a file has succeeded, every path on which the function returns -- other than the propagation of an error with `?` -- passes through the rename of "
+              "the temporary file over the input: the replacement is not conditional on there having been output", floor=1)
+    for mb in anchors:
+        in_place_rules(facts, Body(mb), mb["def"], w1, w2, w3, w6, w9)
+    rules += [w1.finish(), w2.finish(), w3.finish(), w6.finish(), w9.finish()]
+    ANCHORS = {mb["def"] for mb in anchors} | {mb.get("root") for mb in anchors if mb.get("root")}
+
+    # ---- W18.5 / W18.7 who-may-call inside the CLI crate
+    w5 = Rule("W18.5", "the temporary file is never kept, leaked or detached from its RAII guard, and is not wrapped in a buffered writer whose Drop would swallow a failing final flush", floor=20)
+    LEAK = re.compile(r"^tempfile::.*::(keep|into_parts|into_temp_path|into_file|disable_cleanup|into_inner)$|^core::mem::forget$|^core::mem::manually_drop::ManuallyDrop::<T>::new$|^alloc::boxed::Box::<T(, A)?>::leak$")
+    BUF = re.compile(r"^std::io::buffered::(bufwriter::BufWriter|linewriter::LineWriter)::<W>::(new|with_capacity)$")
+    for crate, body in facts.all_mir():
+        if crate != "jaq" or body["def"].startswith("jaq::funs::repl") or (body.get("root") or "").startswith("jaq::funs::repl"):
+            continue
+        bb = Body(body)
+        in_place_fn = body["def"] in ANCHORS or body.get("root") in ANCHORS
+        for i, t in bb.calls():
+            c = Body.callee(t) or ""
+            w5.examined((body["def"], c, t["sp"]), bool(LEAK.search(c) or BUF.search(c)))
+            if LEAK.search(c):
+                w5.violate(f"leak/{body['def']}/{c}", f"`{body['def']}` calls `{c}`: the temporary file can outlive a failed run", where=t["sp"])
+            if BUF.search(c) and in_place_fn:
+                w5.violate(f"buffered/{body['def']}/{c}", f"`{body['def']}` wraps an output in `{c}`; a write error in the final implicit flush (Drop) would be lost before the rename", where=t["sp"])
+    rules.append(w5.finish())
+
+    # ---- W18.7 the process is only ended where no temporary file is alive
+    rules.append(rule_exit_only_after_run(facts, "W18.7").finish())
+
+    # ---- W18.8 outcomes are examined one at a time
+    rules.append(rule_no_deferred_results(facts, "W18.8").finish())
+
+    # ---- W18.4 sole writer of file-system state (MONO)
+    rules.append(rule_sole_writer(facts, "W18.4").finish())
 
     explanation = ("Dominance, must-follow and value-flow rules on the MIR of jaq::real_main and of the closure handed to the in-place run, plus a who-may-call rule over the "
                    "whole-program call graph. Decides the structural core of C18: rename only after success, output to a temp file in the same directory with RAII deletion, permissions "
